@@ -41,6 +41,28 @@ pub fn total<F: Family>(b: &[u8], ctx: &mut Ctx) -> CaseResult {
         // two body reads with a Pending in between, continued from a cloned state
         let steps: Vec<Step> = (0..8).map(|i| if i == 5 { Step::Pending } else if i < 4 { Step::Chunk(1) } else { Step::Chunk(b.len() / 2) }).collect();
         let _ = fam::dec_poll_styled::<F>(b, &steps, u64::MAX, None, false, 2 | (fnv(b) >> 2 & 1) as u8);
+        // termination under a real executor: a Pending that nobody is going to wake is a hang. The transport wakes
+        // whenever it returns Pending; a Pending of the decoder in a poll in which the transport was ready (or failed:
+        // the schedule contains transient failures of kind WouldBlock / Interrupted) has no wake-up coming.
+        let steps: Vec<Step> = (0..b.len().min(64) * 2 + 6)
+            .map(|i| match i % 5 {
+                1 => Step::Fail(std::io::ErrorKind::WouldBlock),
+                3 => Step::Fail(std::io::ErrorKind::Interrupted),
+                4 => Step::Pending,
+                _ => Step::Chunk(1 + i % 3),
+            })
+            .collect();
+        let p3 = fam::dec_poll_styled::<F>(b, &steps, 0, None, false, 0);
+        for (r, how) in [(&p2, "one byte per read with Pending before every read"), (&p3, "a schedule with transient WouldBlock / Interrupted failures")] {
+            if r.spurious_pending || matches!(&r.transient_not_surfaced, Some(x) if x == "Pending") {
+                return Err(crate::run::Violation::new(format!(
+                    "{} poll decoder on {} under {}: it returned Pending in a poll in which the transport was not pending, so no wake-up is registered and the decode never completes under an executor",
+                    F::FAM.name(),
+                    hex_short(b, 48),
+                    how
+                )));
+            }
+        }
         // (schedule independence is C05's business; here only the outcome kind is recorded)
         ctx.label(if p2.result.is_ok() == p1.result.is_ok() { "chunked:same-kind" } else { "chunked:different-kind" });
     }
